@@ -40,10 +40,11 @@ fn spawn(job: &MiriJob, log: &Path) -> std::io::Result<std::process::Child> {
    // ascent::internal would stop Miri at once, so that scenario runs without the race detector
    // `shared-pool` runs several instances on one pool: there the unsynchronised counters collide so
    // often that the aliasing model has to be off as well; that scenario looks for deadlocks, panics
-   // and wrong results only.
+   // and wrong results only. `first-use` releases four instances under pools of two sizes into their
+   // construction at the same instant (first evaluation of process-wide lazies): same flags.
    let flags = match job.scenario.as_str() {
       "tenants" => format!("-Zmiri-many-seeds={}..{} {} -Zmiri-disable-data-race-detector", job.miri_seed_from, job.miri_seed_to, FLAGS),
-      "shared-pool" => format!(
+      "shared-pool" | "first-use" => format!(
          "-Zmiri-many-seeds={}..{} -Zmiri-ignore-leaks -Zmiri-preemption-rate=0.05 -Zmiri-permissive-provenance -Zmiri-disable-data-race-detector -Zmiri-disable-stacked-borrows",
          job.miri_seed_from, job.miri_seed_to
       ),
@@ -134,8 +135,8 @@ pub fn jobs(check: &str, thorough: bool, seed: u64) -> Vec<MiriJob> {
       ("C05", true) => vec![("tc", 6, 16), ("index", 4, 16)],
       ("C19", false) => vec![("index", 2, 4)],
       ("C19", true) => vec![("index", 12, 16)],
-      ("C20", false) => vec![("tc-pools", 1, 4), ("tenants", 1, 4), ("shared-pool", 2, 4)],
-      ("C20", true) => vec![("tc-pools", 8, 16), ("tenants", 6, 16), ("shared-pool", 8, 16)],
+      ("C20", false) => vec![("tc-pools", 1, 4), ("tenants", 1, 4), ("shared-pool", 2, 4), ("first-use", 2, 6)],
+      ("C20", true) => vec![("tc-pools", 8, 16), ("tenants", 6, 16), ("shared-pool", 8, 16), ("first-use", 8, 16)],
       _ => vec![],
    };
    let mut v = vec![];
